@@ -95,6 +95,7 @@ type BucketShape struct {
 	RootLeaf bool `json:"rootLeaf"`
 	Keys     int  `json:"keys"`
 	TopLevel bool `json:"topLevel"`
+	Parent   int  `json:"parent"` // id of the enclosing bucket, 0 = the root bucket
 }
 
 func fnv64a(b []byte) uint64 {
@@ -256,19 +257,19 @@ func DecodeBytes(data []byte) *Decoded {
 		dc.checkOrder(d.Root, "root")
 	}
 	dc.account()
-	var collect func(b *DBucket, top bool)
-	collect = func(b *DBucket, top bool) {
+	var collect func(b *DBucket, top bool, parent int)
+	collect = func(b *DBucket, top bool, parent int) {
 		if b.Idx != 0 {
-			d.Buckets = append(d.Buckets, BucketShape{ID: b.Idx, Inline: b.Inline, Size: pageHeaderSize + b.ElemSize, Nested: b.Nested, RootLeaf: b.RootLeaf, Keys: len(b.Keys), TopLevel: top})
+			d.Buckets = append(d.Buckets, BucketShape{ID: b.Idx, Inline: b.Inline, Size: pageHeaderSize + b.ElemSize, Nested: b.Nested, RootLeaf: b.RootLeaf, Keys: len(b.Keys), TopLevel: top, Parent: parent})
 		}
 		for _, s := range b.Subs {
 			if s != nil {
-				collect(s, b.Idx == 0)
+				collect(s, b.Idx == 0, b.Idx)
 			}
 		}
 	}
 	if d.Root != nil {
-		collect(d.Root, false)
+		collect(d.Root, false, 0)
 	}
 	return d
 }
